@@ -187,8 +187,15 @@ func handleSUR() diam.HandlerFunc {
 			sua.ServiceRating.Price = monetaryCost
 		// price for the reserved units
 		case charging_datatype.REQ_SUBTYPE_RESERVE:
-			sua.ServiceRating.AllowedUnits = sr.MonetaryQuota / unitCost
-			sua.ServiceRating.Price = sua.ServiceRating.AllowedUnits * unitCost
+			if unitCost == 0 {
+				// unusable tariff (0, empty or malformed unit cost): grant nothing, but still answer
+				logger.RatingLog.Warnf("unit cost [%s] of UE [%s] RG [%d] is not a positive number", unitCostStr, subscriberId, rg)
+				sua.ServiceRating.AllowedUnits = datatype.Unsigned32(0)
+				sua.ServiceRating.Price = datatype.Unsigned32(0)
+			} else {
+				sua.ServiceRating.AllowedUnits = sr.MonetaryQuota / unitCost
+				sua.ServiceRating.Price = sua.ServiceRating.AllowedUnits * unitCost
+			}
 		default:
 			logger.RatingLog.Warnf("Unknow request type")
 			sua.ServiceRating.AllowedUnits = datatype.Unsigned32(0)
